@@ -223,8 +223,30 @@ def rule_r3(ctx):
         raise AnalysisBroken("only %d integer wrappers found" % n)
 
 
+
+def rule_r5(ctx):
+    r = ctx.rule("C17.R5", "T3", "header insert/append move the old header with its old length: in nni_msg_header_insert the memmove "
+                 "that makes room is sized by m_header_len as it was before this call (the length is increased afterwards), and "
+                 "in nni_msg_header_append the copy lands at the old length", floor=2)
+    prog = ctx.prog
+    for name in ("nni_msg_header_insert", "nni_msg_header_append"):
+        f = prog.need(name, "core/message.c")
+        grows = [t for t in f.assigns() if G.field_is(t.node["lhs"], "m_header_len")]
+        uses = [c for c in f.calls(("memmove", "memcpy")) if any("m_header_len" in show(f.expand(a)) for a in c.node["args"])]
+        if not grows or not uses:
+            raise AnalysisBroken("%s: header length update / copy not found" % name)
+        for c in uses:
+            if any((c.b, c.i) in f.reach((t.b, t.i + 1)) for t in grows):
+                ctx.fail(r, f, "header moved with the new length", c.line,
+                         "%s at line %s uses m_header_len after it was increased: it moves / offsets by old + len bytes and writes "
+                         "past the 64-byte header buffer" % (c.node["fn"], c.line))
+            else:
+                r.ob(f, "%s line %s uses the old header length" % (c.node["fn"], c.line))
+
+
 def run(ctx):
     ctx.guard(rule_r1)
     ctx.guard(rule_r2)
     ctx.guard(rule_r3)
     ctx.guard(rule_r4)
+    ctx.guard(rule_r5)
